@@ -10,7 +10,8 @@ def sh(cmd, cwd, timeout=1800):
     return p.returncode, p.stdout
 
 def main():
-    d = os.path.abspath(sys.argv[1]); run_check = "--check" in sys.argv
+    d = os.path.abspath(sys.argv[1]); run_check = "--check" in sys.argv or "--check-only" in sys.argv
+    check_only = "--check-only" in sys.argv  # the change was verified before (suite, demonstration): only re-run the checks
     meta = json.load(open(os.path.join(d, "meta.json")))
     wt = tempfile.mkdtemp(prefix="seedv-", dir="/tmp")
     os.rmdir(wt)
@@ -25,9 +26,17 @@ def main():
             for it in meta["demo_install"]:
                 try: os.remove(os.path.join(wt, it["dst"]))
                 except FileNotFoundError: pass
+        prev = {}
+        if check_only:
+            try: prev = json.load(open(os.path.join(d, "last_check.json")))
+            except Exception: prev = {}
+            for k in ("demo_without_change", "suite_with_change", "demo_with_change", "demo_tail"):
+                if k in prev: res[k] = prev[k]
+            res["demo_and_suite_from_earlier_run"] = True
         # (3) demo passes without the change
-        install(); rc, out = sh(meta["demo_cmd"], wt); res["demo_without_change"] = "pass" if rc == 0 else "FAIL"; uninstall()
-        if rc != 0: print(out[-2000:])
+        if not check_only:
+            install(); rc, out = sh(meta["demo_cmd"], wt); res["demo_without_change"] = "pass" if rc == 0 else "FAIL"; uninstall()
+            if rc != 0: print(out[-2000:])
         rc, out = sh("git apply " + os.path.join(d, "patch.diff"), wt)
         if rc != 0:
             # the regenerated example files of the patch no longer match this base: apply the source part and
@@ -37,12 +46,13 @@ def main():
             rc, out = sh("/verif/tools/regen_examples.sh " + wt, "/verif", timeout=1800)
             if rc != 0: print("regeneration failed:", out); sys.exit(2)
             res["regenerated_examples"] = True
-        # (1) suite passes with the change
-        rc, out = sh("go build ./... && go test -vet=off -count=1 ./...", wt); res["suite_with_change"] = "pass" if rc == 0 else "FAIL"
-        if rc != 0: print(out[-2000:])
-        # (2) demo fails with the change
-        install(); rc, out = sh(meta["demo_cmd"], wt); res["demo_with_change"] = "fail" if rc != 0 else "PASSES (not a demonstration)"; uninstall()
-        res["demo_tail"] = out.strip().splitlines()[-6:]
+        if not check_only:
+            # (1) suite passes with the change
+            rc, out = sh("go build ./... && go test -vet=off -count=1 ./...", wt); res["suite_with_change"] = "pass" if rc == 0 else "FAIL"
+            if rc != 0: print(out[-2000:])
+            # (2) demo fails with the change
+            install(); rc, out = sh(meta["demo_cmd"], wt); res["demo_with_change"] = "fail" if rc != 0 else "PASSES (not a demonstration)"; uninstall()
+            res["demo_tail"] = out.strip().splitlines()[-6:]
         if run_check:
             for pid in meta["detected_by"] if "detected_by" in meta else [meta["property"]]:
                 rc, out = sh("VERIF_REPO=%s ./check %s quick" % (wt, pid), "/verif", timeout=3600)
